@@ -25,6 +25,9 @@ def run(model, rep, tier):
     rep.rule('C01.R7', 'premises of the bases-first argument: gather_layers is a pre-order walk '
              'over all bases; order_by_bases gathers, reverses once, keeps first occurrences')
     bases_first_premises(ctx, rep, 'C01.R7')
+    from . import lifetime
+    rep.rule('C01.R8', "each run sees only its own inputs (rules/lifetime.py): no function of the package is memoised across runs (functools.lru_cache / cache), module-level containers that functions add to are emptied at the start of a run, no mutable class attribute is shared through instances (mutated in place or handed out without being re-bound per instance), and no option with a mutable argparse default is mutated in place after parsing -- a second run in the same process (other layer objects under the same names, other outcomes, other filters) must not inherit the first run's state")
+    lifetime.check(ctx, rep, 'C01.R8')
     rep.units['cfg'] = ctx.cfg_stats
 
 
